@@ -439,46 +439,53 @@ Proof.
       rewrite !map_app, <- !app_assoc. reflexivity.
 Qed.
 
+(* the journal after an event: only a write call changes it *)
+Definition gstep (z : sys2) (e : zev) (G : list jfile) : list jfile :=
+  match e with
+  | ZCall (OW w) => gfold (z_core z) (wrecs (z_core z) w) G
+  | _ => G
+  end.
+
 Lemma JI_call z o z' v G :
   AD.full z -> JI z G -> (forall w, o = OW w -> wop_wf w) -> zcall z o = Some (z', v) ->
-  exists G', JI z' G'.
+  JI z' (gstep z (ZCall o) G).
 Proof.
   intros F [Gi Ti Hw He] Hwf H. unfold zcall in H.
   destruct (z_todo z) eqn:Et; [|discriminate]. destruct (z_dropped z); [discriminate|].
   pose proof (AD.b_dle _ (AD.f_b _ F)) as Hd.
   assert (Es : AD.stream z = map XSend (AD.stream_batch (z_w z) ++ z_queue z))
     by (rewrite stream_split, Et; apply app_nil_r).
-  destruct o as [w|cb|from to| | | | | |cfg'].
+  destruct o as [w|cb|from to| | | | | |cfg']; cbn [gstep].
   - destruct (do_write (z_core z) w) as [[[k r] effs]|] eqn:E; [|discriminate].
     inversion H; subst; clear H.
-    destruct (write_step _ _ _ _ _ _ _ _ Gi Hw Hd (Hwf w eq_refl) E) as (G' & G1 & W1 & D1 & E1).
-    exists G'. constructor; simpl.
+    destruct (write_step _ _ _ _ _ _ _ _ Gi Hw Hd (Hwf w eq_refl) E) as (G1 & W1 & D1 & E1).
+    constructor; simpl.
     + exact G1.
     + apply paired_tinv, paired_expand.
     + exact W1.
     + intros Hal. specialize (E1 _ _ (He Hal)). rewrite Es in E1. exact E1.
   - unfold do_flush in H. inversion H; subst; clear H.
-    destruct (flush_step _ _ _ _ cb Gi Hw Hd) as (G' & G1 & W1 & D1 & E1).
-    exists G'. constructor.
+    destruct (flush_step _ _ _ _ cb Gi Hw Hd) as (G1 & W1 & D1 & E1).
+    constructor.
     + exact G1.
     + apply paired_tinv. apply (paired_expand (snd (do_flush (z_core z) cb))).
     + exact W1.
     + intros Hal. specialize (E1 _ _ (He Hal)). rewrite Es in E1. exact E1.
   - destruct (do_read (z_core z) (z_disk z) from to) as [k items] eqn:Er. inversion H; subst; clear H.
     pose proof (do_read_core (z_core z) (z_disk z) from to) as Hc. rewrite Er in Hc. simpl in Hc.
-    exists G. constructor; simpl; rewrite ?Et.
+    constructor; simpl; rewrite ?Et.
     + eapply GI_eqj; eauto.
     + exact Ti.
     + exact Hw.
     + intros Hal. eapply EI_eqj; [exact Hc|]. exact (He Hal).
-  - inversion H; subst. exists G. constructor; rewrite ?Et; assumption.
-  - inversion H; subst. exists G. constructor; rewrite ?Et; assumption.
-  - inversion H; subst. exists G. constructor; rewrite ?Et; assumption.
+  - inversion H; subst. constructor; rewrite ?Et; assumption.
+  - inversion H; subst. constructor; rewrite ?Et; assumption.
+  - inversion H; subst. constructor; rewrite ?Et; assumption.
   - destruct (z_queue z); [|discriminate]. destruct (worker_quiet z); [|discriminate].
-    inversion H; subst. exists G. constructor; rewrite ?Et; assumption.
+    inversion H; subst. constructor; rewrite ?Et; assumption.
   - inversion H; subst; clear H.
     pose proof (core_eqj_cache (z_core z) (cache_drain (m_cache (k_sm (z_core z))))) as Hc.
-    exists G. constructor; simpl; rewrite ?Et.
+    constructor; simpl; rewrite ?Et.
     + eapply GI_eqj; eauto.
     + exact Ti.
     + exact Hw.
@@ -488,15 +495,15 @@ Qed.
 
 Lemma JI_step z e z' v G :
   AD.full z -> JI z G -> (forall w, e = ZCall (OW w) -> wop_wf w) -> zstep z e = Some (z', v) ->
-  exists G', JI z' G'.
+  JI z' (gstep z e G).
 Proof.
   intros F J Hwf H. destruct e as [o| |k nf|ok|]; simpl in H.
   - eapply JI_call; eauto. intros w ->. now apply Hwf.
-  - exists G. eapply JI_eff; eauto.
-  - exists G. eapply JI_recv; eauto.
-  - exists G. eapply JI_work; eauto.
+  - eapply JI_eff; eauto.
+  - eapply JI_recv; eauto.
+  - eapply JI_work; eauto.
   - destruct (z_todo z) eqn:Et; [|discriminate]. inversion H; subst; clear H.
-    exists G. destruct J as [Gi Ti Hw He]. constructor; simpl; rewrite ?Et in *; try assumption.
+    destruct J as [Gi Ti Hw He]. constructor; simpl; rewrite ?Et in *; try assumption.
     intros Hal. specialize (He Hal). unfold AD.stream in *. simpl. rewrite Et in He. exact He.
 Qed.
 
@@ -573,16 +580,32 @@ Proof.
   - AF.inv_step H. split; [exact Hw|intros; discriminate].
 Qed.
 
+(* induction over reachable states, with the journal threaded along: an additional
+   invariant P of (state, journal) may use [full], [JI] and the well-formedness of the
+   write in progress *)
+Lemma L2_journal_ind (P : sys2 -> list jfile -> Prop) cfg :
+  P (AF.zstart cfg) G_init ->
+  (forall z e z' v G, AD.full z -> JI z G -> hist_wf z' -> P z G ->
+     zstep z e = Some (z', v) -> P z' (gstep z e G)) ->
+  forall z, zreach cfg z -> hist_wf z -> exists G, JI z G /\ P z G.
+Proof.
+  intros H0 Hs z Hr.
+  assert (H : AD.full z /\ (hist_wf z -> exists G, JI z G /\ P z G)).
+  { revert z Hr. apply (AF.zreach_ind (fun z => AD.full z /\ (hist_wf z -> exists G, JI z G /\ P z G))).
+    - split; [apply AD.full_init|]. intros _. exists G_init. split; [apply JI_init|exact H0].
+    - intros z e z' v [F IH] Hst. split; [eapply AD.full_step; eauto|].
+      intros Hw. destruct (hist_wf_step _ _ _ _ Hst Hw) as [Hw0 Hwe].
+      destruct (IH Hw0) as (G & J & HP). exists (gstep z e G). split.
+      + eapply JI_step; eauto.
+      + eapply Hs; eauto. }
+  apply H.
+Qed.
+
 Theorem L2_journal : forall cfg z, zreach cfg z -> hist_wf z -> exists G, JI z G.
 Proof.
-  intros cfg z Hr.
-  assert (H : AD.full z /\ (hist_wf z -> exists G, JI z G)).
-  { revert z Hr. apply (AF.zreach_ind (fun z => AD.full z /\ (hist_wf z -> exists G, JI z G))).
-    - split; [apply AD.full_init|]. intros _. exists G_init. apply JI_init.
-    - intros z e z' v [F IH] Hs. split; [eapply AD.full_step; eauto|].
-      intros Hw. destruct (hist_wf_step _ _ _ _ Hs Hw) as [Hw0 Hwe].
-      destruct (IH Hw0) as [G J]. eapply JI_step; eauto. }
-  apply H.
+  intros cfg z Hr Hw.
+  destruct (L2_journal_ind (fun _ _ => True) cfg I (fun _ _ _ _ _ _ _ _ _ _ => I) z Hr Hw) as (G & J & _).
+  eauto.
 Qed.
 
 Print Assumptions L2_journal.
